@@ -31,6 +31,8 @@ PRE_R = ("From Coq Require Import Reals.\nFrom Interval Require Import Tactic.\n
 WRAPPER = {1: "eq2gal", 2: "gal2eq", 3: "eq2ec", 4: "ec2eq", 5: "ec2gal", 6: "gal2ec"}
 INV = {1: 2, 2: 1, 3: 4, 4: 3, 5: 6, 6: 5}
 TOL_SHIFT = 1e-9       # degrees; the tightest tolerance named in the statement, used only where binary64 sums round
+FORM_TOL = 1e-9        # degrees: agreement between container forms of the same call (tightest tolerance of the statement)
+FORM_TOL_RAD = 1.7e-11  # the same in radians / for unit-vector components
 
 
 def _coords():
@@ -535,9 +537,12 @@ class Forms(Entry):
                     seen.setdefault(i, [])
                     if o not in seen[i]:
                         seen[i].append(o)
-                if any(len(v) != 1 for v in seen.values()):
-                    raise AssertionError("equal inputs at different positions of a long array give different outputs")
-                arr = [seen[i][0] for i in range(len(pts))]
+                arr, sca2 = [], []
+                for i in range(len(pts)):
+                    for o in seen[i]:           # usually one; the vector body and the scalar tail of a numpy loop may differ
+                        arr.append(o)
+                        sca2.append(sca[i])
+                sca = sca2
             else:
                 arr = call_conv(c, pts, False)
             return {"arr": [[jf(x) for x in t] for t in arr], "sca": [[jf(x) for x in t] for t in sca]}
@@ -547,14 +552,18 @@ class Forms(Entry):
         if out[0] != "ok":
             return "3%Z"
         arr, sca = out[1]["arr"], out[1]["sca"]
+        # every output in range (exactly); the container form and the scalar calls agree to FORM_TOL (another numpy inner
+        # loop may differ in the last bits; a longitude may then also land on the other side of the 0/360 seam)
         if c["fn"] == "eq2xyz":
-            return "verdict true (xyz_forms_ok [%s] [%s])" % ("; ".join(oqtriple(t) for t in arr), "; ".join(oqtriple(t) for t in sca))
-        chk = "lonlat_ok"
+            return "verdict true (xyz_forms_close %s [%s] [%s])" % (cQ(FORM_TOL_RAD), "; ".join(oqtriple(t) for t in arr),
+                                                                     "; ".join(oqtriple(t) for t in sca))
+        chk, tol, per1, per2 = "lonlat_ok", FORM_TOL, "360", "0"
         if c["fn"] == "eq2sdss":
-            chk = "sdss_ok"
+            chk, per1, per2 = "sdss_ok", "0", "360"
         elif c["fn"] == "xyz2eq" and c["units"] == "rad":
-            chk = "lonlat_rad_ok"
-        return "verdict true (forms_ok %s [%s] [%s])" % (chk, "; ".join(oqpair(t) for t in arr), "; ".join(oqpair(t) for t in sca))
+            chk, tol, per1 = "lonlat_rad_ok", FORM_TOL_RAD, "(2 * pi_hi)"
+        return "verdict true (forms_close %s %s %s %s [%s] [%s])" % (chk, cQ(tol), per1, per2, "; ".join(oqpair(t) for t in arr),
+                                                                      "; ".join(oqpair(t) for t in sca))
 
     def classify(self, c, out, v):
         return "C09.ranges:%s%s" % (c["fn"], (":" + c["form"]) if c.get("form") else "")
@@ -600,7 +609,7 @@ class History(Entry):
 
         def rcall(ang):
             return {"conv": {"fn": "rotate", "phi": ang[0], "theta": ang[1], "psi": ang[2]}, "pt": list(sphere_pt(r))}
-        sels = [1, 3, 5] if ctx.quick() else [1, 2, 3, 4, 5, 6]
+        sels = [1, 5] if ctx.quick() else [1, 2, 3, 4, 5, 6]
         if round > 0:
             sels = [r.randrange(1, 7)]
         for sel in sels:
@@ -608,7 +617,8 @@ class History(Entry):
             if not ctx.quick() or sel == 1:
                 cs.append({"ops": [ecall(sel, False, True), ecall(sel, True, True), ecall(sel, False)], "family": "epoch:J2000-B1950-J2000"})
         cs.append({"ops": [ecall(1, True, dtype="f4"), ecall(1, False, dtype="f4"), ecall(1, False)], "family": "dtype:f4-then-f8"})
-        cs.append({"ops": [ecall(2, False), ecall(6, False), ecall(2, False, True)], "family": "selector-mix"})
+        if not ctx.quick():
+            cs.append({"ops": [ecall(2, False), ecall(6, False), ecall(2, False, True)], "family": "selector-mix"})
         ang = [r.uniform(-180, 180) for _ in range(3)]
         cs.append({"ops": [rcall(ang), rcall([ang[0], -ang[1], ang[2]]), rcall([ang[2], ang[1], ang[0]])], "family": "rotate-angles"})
         return cs
